@@ -451,6 +451,71 @@ func runC13(c *Ctx) {
 		}
 	}
 
+	c.clause("C13.h", "T2", "a body handed to InvokeBackgroundTask does not leave work running when it returns: every goroutine it starts is joined (a receive from a channel that goroutine completes on) on every path to the body's return", 1)
+	for _, s := range c.callSitesOf(idIs(pkg+".(*BackgroundTaskManager).InvokeBackgroundTask"), c.liveFuncs()) {
+		call := s.instr.(ssa.CallInstruction)
+		mc, ok := stripConv(call.Common().Args[1]).(*ssa.MakeClosure)
+		if !ok {
+			c.unk(c.fnKey(s.caller)+":body", s.instr.Pos(), "the task body is not a function literal at the call site")
+			continue
+		}
+		body := mc.Fn.(*ssa.Function)
+		good := true
+		detail := ""
+		eachInstr(body, func(i ssa.Instruction) {
+			g, ok := i.(*ssa.Go)
+			if !ok {
+				return
+			}
+			lit := goLiteral(g)
+			if lit == nil {
+				good, detail = false, "goroutine target not resolvable"
+				return
+			}
+			// channels the goroutine sends on or closes
+			cells := map[ssa.Value]bool{}
+			vals := map[ssa.Value]bool{}
+			note := func(ch ssa.Value) {
+				ch = stripConv(goActual(g, lit, ch))
+				if p, ok := loadOf(ch); ok {
+					if cr := cellRoot(p); cr != nil {
+						cells[cr] = true
+						return
+					}
+				}
+				vals[ch] = true
+			}
+			eachInstr(lit, func(j ssa.Instruction) {
+				switch x := j.(type) {
+				case *ssa.Send:
+					note(x.Chan)
+				case ssa.CallInstruction:
+					if calleeID(x) == "builtin.close" {
+						note(x.Common().Args[0])
+					}
+				}
+			})
+			isCh := func(v ssa.Value) bool {
+				v = stripConv(v)
+				if vals[v] {
+					return true
+				}
+				if p, ok := loadOf(v); ok {
+					if cr := cellRoot(p); cr != nil && cells[cr] {
+						return true
+					}
+				}
+				return false
+			}
+			ri, re := recvEvents(body, isCh)
+			if hit, path := reach(body, g, isReturn, newCuts().addInstr(ri...).addEdges(re)); hit != nil {
+				good = false
+				detail = c.pathStr(body, path)
+			}
+		})
+		c.verdict(c.fnKey(body)+":no-orphan-goroutine", body.Pos(), good, "the body returns only after the goroutines it started have completed", "the task body can return while a goroutine it started is still running (e.g. it gives up on ctx.Done()): after the silence period the manager re-runs the body while the orphan still reads into the shared buffer: "+detail)
+	}
+
 	c.clause("C13.g", "T1", "an attempt reports success only after the body completed; InvokeBackgroundTask returns only after a successful attempt", 2)
 	for _, a := range attempts {
 		if a.isDone == nil {
